@@ -594,6 +594,10 @@ def r8_optional_result_stored(ctx):
                     node = cfg.node_of(st)
                     pc = path_condition(cfg, node.id, keep=lambda t, nn: t.replace(" ", "") in (f"{name}isNone", f"{name}isnotNone")) if node is not None else ((), frozenset())
                     guarded = bool(pc[0]) and st is not st0
+                    # a positive kind test excludes None as well (`if is_table(result): ...`)
+                    if not guarded and st is not st0 and node is not None:
+                        guarded = any(pol and isinstance(t, ast.Call) and callee_last(t) in ("is_table", "is_field", "is_index", "is_table_or_field", "isinstance")
+                                      and t.args and isinstance(t.args[0], ast.Name) and t.args[0].id == name for t, pol in cfg.guards(node.id))
                     kind = "becomes the working object" if st is st0 else ("is returned" if isinstance(st, ast.Return) else f"is stored into `{txt(st.targets[0])[:30]}`")
                     ctx.ob("R8", f, f"{f.short}: the optional result of {h.name}() {kind} only when it is not None", guarded,
                            "tested for None first" if guarded else
